@@ -484,6 +484,12 @@ impl Sess {
         }
     }
     fn apply_inner(&mut self, ws: &[&str]) -> String {
+        // self-contained lines (no machine session): evaluated by their property's module
+        if !ws.is_empty() {
+            if let Some(r) = crate::c_run::eval_line(ws) {
+                return r;
+            }
+        }
         let m = &mut self.m;
         let ok = || "ok".to_string();
         let bad = || "bad-op".to_string();
